@@ -133,8 +133,12 @@ def gen_case(rng, params, idx):
                                                             else ["object", "int", "MyInt", "object"])})
     methods.append({"mid": 99, "pos": [{"n": f"a{j}", "t": "object"} for j in range(npos)], "kw": [], "prio": -1,
                     "kind": "leaf"})
-    return {"hier": [], "methods": methods, "npos": npos, "shape": shape,
-            "rest": [rng.choice([["v", 1], ["v", 2], ["v", "a"], ["mi", 1]]) for _ in range(1, npos)]}
+    rests = []
+    for _ in range(4 if npos > 1 else 1):
+        r = [rng.choice([["v", 1], ["v", 2], ["v", "a"], ["mi", 1]]) for _ in range(1, npos)]
+        if r not in rests:
+            rests.append(r)
+    return {"hier": [], "methods": methods, "npos": npos, "shape": shape, "rest": rests[0], "rests": rests}
 
 
 def _family(t):
@@ -180,9 +184,9 @@ def check_case(spec, res):
         res.count("second_position")
     tobjs = {m["mid"]: normalize_type(T.ann(m["pos"][0]["t"], env), None) for m in methods}
     shape = [spec["shape"], len(methods), spec["npos"]]
-    for vx in CORPUS:
+    rests = spec.get("rests") or [spec.get("rest") or ([spec["second"]] if spec.get("second") else [])]
+    for vx, rest in [(vx, rest) for rest in rests for vx in CORPUS]:
         v = T.value(vx, env)
-        rest = spec.get("rest") or ([spec["second"]] if spec.get("second") else [])
         call = {"pos": [vx] + rest, "kw": {}}
         second_ok = {}
         M, unspec, broken = [], False, None
